@@ -125,8 +125,36 @@ fn extra_inputs() -> Vec<Input> {
 
 fn inputs(tier: &str) -> Vec<Input> {
     // the polynomial oracles are cubic: graphs up to 130 nodes
-    let mut v: Vec<Input> = large_inputs(tier).into_iter().filter(|i| i.g.number_of_nodes() <= 130).collect();
+    let mut v: Vec<Input> = large_inputs(tier).into_iter().filter(|i| i.g.number_of_nodes() <= 130 && !i.name.starts_with("neg-")).collect();
     v.extend(extra_inputs());
+    v
+}
+
+/// graphs with astronomically many equally short paths between two nodes (a chain of k diamonds has 2^k):
+/// path COUNTS beyond 2^32 / 2^53 / 2^64 - only for the functions that count paths without listing them
+fn tie_rich_inputs() -> Vec<Input> {
+    let mut v = vec![];
+    for (k, directed, weighted) in [(70usize, true, false), (70, false, true), (34, true, true)] {
+        let n = 3 * k + 1;
+        let mut g: Graph<i32, ()> = Graph::new(if directed { GraphSpecs::directed() } else { GraphSpecs::undirected() });
+        for i in (0..n as i32).rev() {
+            g.add_node(Node::from_name(i));
+        }
+        let w = if weighted { 2.0 } else { f64::NAN };
+        for d in 0..k as i32 {
+            let (a, top, bot, z) = (3 * d, 3 * d + 1, 3 * d + 2, 3 * d + 3);
+            for (x, y) in [(a, top), (a, bot), (top, z), (bot, z)] {
+                g.add_edge(Arc::new(Edge { u: x, v: y, weight: w, attributes: None })).expect("ladder");
+            }
+        }
+        v.push(Input { name: format!("diamond-ladder{k}/{}/{}", if directed { "directed" } else { "undirected" }, if weighted { "w" } else { "u" }), g, weighted });
+    }
+    v
+}
+
+fn inputs_counting(tier: &str) -> Vec<Input> {
+    let mut v = inputs(tier);
+    v.extend(tie_rich_inputs());
     v
 }
 
@@ -205,7 +233,7 @@ pub fn c04_large(tier: &str, rec: &Recorder, c: &mut Counters) {
 }
 
 pub fn c05_large(tier: &str, rec: &Recorder, c: &mut Counters) {
-    for inp in inputs(tier) {
+    for inp in inputs_counting(tier) {
         for weighted in if inp.weighted { vec![true, false] } else { vec![false] } {
             let d = dense_of(&inp.g, weighted);
             let n = d.n;
@@ -257,7 +285,7 @@ pub fn c05_large(tier: &str, rec: &Recorder, c: &mut Counters) {
 }
 
 pub fn c06_large(tier: &str, rec: &Recorder, c: &mut Counters) {
-    for inp in inputs(tier) {
+    for inp in inputs_counting(tier) {
         for weighted in if inp.weighted { vec![true, false] } else { vec![false] } {
             let d = dense_of(&inp.g, weighted);
             let n = d.n;
